@@ -277,7 +277,16 @@ json handleOne(Ctx &c, const json &rec) {
                     tag.addReference(a);
                     check("util::taggedData(tag,array)", [&] { return nix::util::taggedData(tag, a, rm(mode)); }, true, effective);
                     check("util::taggedData(tag,0)", [&] { return nix::util::taggedData(tag, (nix::ndsize_t) 0, rm(mode)); }, true, effective);
-                    if (mode == "Exclusive") check("Tag::taggedData(0)", [&] { return tag.taggedData((size_t) 0); }, true, effective);
+                    if (mode == "Exclusive") {
+                        check("Tag::taggedData(0)", [&] { return tag.taggedData((size_t) 0); }, true, effective);
+                        // the other member entry points (by name, by id, deprecated aliases), in rotation
+                        switch (RF.used % 4) {
+                        case 0: check("Tag::taggedData(name)", [&] { return tag.taggedData(a.name()); }, true, effective); break;
+                        case 1: check("Tag::taggedData(id)", [&] { return tag.taggedData(a.id()); }, true, effective); break;
+                        case 2: check("Tag::retrieveData(0)", [&] { return tag.retrieveData((size_t) 0); }, true, effective); break;
+                        default: check("Tag::retrieveData(name)", [&] { return tag.retrieveData(a.name()); }, true, effective); break;
+                        }
+                    }
                     // offsets and counts as such
                     if (expOk) {
                         nix::NDSize oo, oc; bool threw = false;
@@ -294,6 +303,14 @@ json handleOne(Ctx &c, const json &rec) {
                     nix::Feature ft = tag.createFeature(a, l);
                     check("util::featureData(tag,feature)", [&] { return nix::util::featureData(tag, ft, rm(mode)); }, lt == "tagged", effective);
                     check("util::featureData(tag,0)", [&] { return nix::util::featureData(tag, (nix::ndsize_t) 0, rm(mode)); }, lt == "tagged", effective);
+                    if (mode == "Exclusive") {
+                        switch (RF.used % 4) {
+                        case 0: check("Tag::featureData(0)", [&] { return tag.featureData((size_t) 0); }, lt == "tagged", effective); break;
+                        case 1: check("Tag::featureData(id)", [&] { return tag.featureData(ft.id()); }, lt == "tagged", effective); break;
+                        case 2: check("Tag::retrieveFeatureData(0)", [&] { return tag.retrieveFeatureData((size_t) 0); }, lt == "tagged", effective); break;
+                        default: check("Tag::retrieveFeatureData(id)", [&] { return tag.retrieveFeatureData(ft.id()); }, lt == "tagged", effective); break;
+                        }
+                    }
                 }
                 b.deleteTag(tag);
             }
@@ -362,8 +379,17 @@ json handleOne(Ctx &c, const json &rec) {
                 checkList("util::taggedData(mtag,indices,0)", [&] { std::vector<nix::ndsize_t> ii(idx); return nix::util::taggedData(mt, ii, (nix::ndsize_t) 0, rm(mode)); });
                 // the list must equal the single retrievals
                 checkList("singles util::taggedData(mtag,i,array)", [&] { std::vector<nix::DataView> vs; for (auto i : idx) vs.push_back(nix::util::taggedData(mt, i, a, rm(mode))); return vs; });
-                if (mode == "Exclusive")
+                if (mode == "Exclusive") {
                     checkList("singles MultiTag::taggedData(i,0)", [&] { std::vector<nix::DataView> vs; for (auto i : idx) vs.push_back(mt.taggedData((size_t) i, (size_t) 0)); return vs; });
+                    switch (RF.used % 6) {
+                    case 0: checkList("MultiTag::taggedData(indices,0)", [&] { std::vector<nix::ndsize_t> ii(idx); return mt.taggedData(ii, (nix::ndsize_t) 0); }); break;
+                    case 1: checkList("MultiTag::taggedData(indices,name)", [&] { std::vector<nix::ndsize_t> ii(idx); return mt.taggedData(ii, a.name()); }); break;
+                    case 2: checkList("MultiTag::retrieveData(indices,id)", [&] { std::vector<nix::ndsize_t> ii(idx); return mt.retrieveData(ii, a.id()); }); break;
+                    case 3: checkList("singles MultiTag::taggedData(i,name)", [&] { std::vector<nix::DataView> vs; for (auto i : idx) vs.push_back(mt.taggedData((size_t) i, a.name())); return vs; }); break;
+                    case 4: checkList("singles MultiTag::retrieveData(i,0)", [&] { std::vector<nix::DataView> vs; for (auto i : idx) vs.push_back(mt.retrieveData((size_t) i, (size_t) 0)); return vs; }); break;
+                    default: checkList("singles MultiTag::retrieveData(i,id)", [&] { std::vector<nix::DataView> vs; for (auto i : idx) vs.push_back(mt.retrieveData((size_t) i, a.id())); return vs; }); break;
+                    }
+                }
             } else {
                 nix::LinkType l = lt == "tagged" ? nix::LinkType::Tagged : lt == "untagged" ? nix::LinkType::Untagged : nix::LinkType::Indexed;
                 nix::Feature ft = mt.createFeature(a, l);
@@ -384,6 +410,14 @@ json handleOne(Ctx &c, const json &rec) {
                 };
                 check("util::featureData(mtag,i,feature)", [&] { return nix::util::featureData(mt, idx[0], ft, rm(mode)); });
                 check("util::featureData(mtag,i,0)", [&] { return nix::util::featureData(mt, idx[0], (nix::ndsize_t) 0, rm(mode)); });
+                if (mode == "Exclusive") {
+                    switch (RF.used % 4) {
+                    case 0: check("MultiTag::featureData(i,0)", [&] { return mt.featureData((size_t) idx[0], (size_t) 0); }); break;
+                    case 1: check("MultiTag::featureData(i,id)", [&] { return mt.featureData((size_t) idx[0], ft.id()); }); break;
+                    case 2: check("MultiTag::retrieveFeatureData(i,0)", [&] { return mt.retrieveFeatureData((size_t) idx[0], (size_t) 0); }); break;
+                    default: check("MultiTag::retrieveFeatureData(i,id)", [&] { return mt.retrieveFeatureData((size_t) idx[0], ft.id()); }); break;
+                    }
+                }
             }
         }
         RF.f.deleteBlock(b);
